@@ -510,6 +510,21 @@ def sym_isinstance(obj, cls):
     return _real_isinstance(obj, cls)
 
 
+_real_type = type
+
+
+def make_sym_type(int_obj=int):
+    """replacement for the builtin one-argument `type` inside shimmed modules: the type of a proxy is the
+    module's `int` (which may itself be shadowed), so `type(x) is int` dispatches as it does on real ints"""
+    def sym_type(*args):
+        if len(args) == 1:
+            if _real_isinstance(args[0], SymInt) or _real_type(args[0]) in (int, CInt):
+                return int_obj
+            return _real_type(args[0])
+        return _real_type(*args)
+    return sym_type
+
+
 _DIVKINDS = (z3.Z3_OP_IDIV, z3.Z3_OP_MOD, z3.Z3_OP_DIV, z3.Z3_OP_REM)
 
 
